@@ -32,7 +32,8 @@ ASSUMPTIONS = [
 ]
 
 PHYS = ["int64", "float64", "object", "bool", "datetime64[ns]"]
-REGEX_POOL = ["a", "^a", "a|b", "[ab]+", "b$", ".", "^(a|b)$", "x?", "^a.*c$", "(ab)+", "a|^b", "ab|b$", "[^a]"]
+REGEX_POOL = ["a", "^a", "a|b", "[ab]+", "b$", ".", "^(a|b)$", "x?", "^a.*c$", "(ab)+", "a|^b", "ab|b$", "[^a]",
+              "\\d", "\\d\\d", "\\s", "\\w\\w", "a\\.b", "\\bb"]  # (regex syntax spelled with a backslash only)
 
 
 @st.composite
@@ -75,7 +76,8 @@ def shared_case(draw):
         spec["unique"] = list(draw(st.permutations(plain)))[: draw(st.integers(1, min(2, len(plain))))]
     if draw(st.integers(0, 3)) == 0:
         # string focus: one object column over a regex-stress pool with one pattern / length check
-        pool = ["a", "b", "ab", "ba", "cb", "xb", "bx", "a\u00e9", "\u00e9", "\u00e9\u00e9b", "", "abc", "aab", "\u00e9", "\u65e5\u672c"]
+        pool = ["a", "b", "ab", "ba", "cb", "xb", "bx", "a\u00e9", "\u00e9", "\u00e9\u00e9b", "", "abc", "aab", "\u00e9", "\u65e5\u672c",
+                "a1", "b12", "a b", "a.b", "\\d"]
         cells = draw(st.lists(st.one_of(st.sampled_from(pool), st.sampled_from(pool), st.sampled_from(pool), st.none()),
                               min_size=n, max_size=n))
         kind = draw(st.sampled_from(["str_matches", "str_matches", "str_contains", "str_startswith", "str_endswith", "str_length",
